@@ -66,6 +66,72 @@ def png_roles(b):
         b.names = old
 
 
+def _split_on_loop_var(b, s, iv):
+    """if the value stored by statement s depends on a local with exactly two definitions that sit on the two sides of a
+    comparison of the loop variable iv with a bound: [(local, def, 'below' | 'above', rendered bound)]; else []."""
+    from mir import op_place
+    import lib
+    seen, work, cand = set(), [], None
+    rv = s["rv"]
+
+    def ops_of(rv):
+        if rv["k"] in ("use", "cast", "un", "repeat"):
+            return [rv["o"]]
+        if rv["k"] == "bin":
+            return [rv["a"], rv["b"]]
+        if rv["k"] == "agg":
+            return rv["ops"]
+        return []
+    work = ops_of(rv)
+    depth = 0
+    while work and depth < 40:
+        depth += 1
+        o = work.pop()
+        p = op_place(o)
+        if p is None or p["l"] in seen:
+            continue
+        seen.add(p["l"])
+        ds = b.defs.get(p["l"], [])
+        if len(ds) == 2 and all(d[2] in ("rv", "call") for d in ds):
+            cand = p["l"]
+            break
+        if len(ds) == 1:
+            d = ds[0]
+            if d[2] == "rv":
+                work.extend(ops_of(d[3]))
+            elif d[2] == "call":
+                work.extend(d[3]["args"])
+    if cand is None:
+        return []
+    out = []
+    for d in b.defs[cand]:
+        side = None
+        bound = None
+        for g, s2 in lib.taken_edges(b, d[0]):
+            t = b.term(g)
+            if t["dty"] != "bool":
+                continue
+            dd = b.def_rv(t["d"])
+            if not (dd and dd[2] == "rv" and dd[3]["k"] == "bin" and dd[3]["op"] in ("Lt", "Ge", "Le", "Gt")):
+                continue
+            a, c = dd[3]["a"], dd[3]["b"]
+            pa, pc = op_place(a), op_place(c)
+            la = b.root_place(pa)["l"] if pa is not None else None
+            lc = b.root_place(pc)["l"] if pc is not None else None
+            truth = (t["else"] == s2)
+            op = dd[3]["op"]
+            if la == iv and op in ("Lt", "Ge"):
+                below = (op == "Lt") == truth
+                side, bound = ("below" if below else "above"), re.sub(r"#\d+", "", b.oname(c, 2))
+            elif lc == iv and op in ("Gt", "Le"):
+                below = (op == "Gt") == truth
+                side, bound = ("below" if below else "above"), re.sub(r"#\d+", "", b.oname(a, 2))
+        if side is None:
+            return []
+        out.append((cand, d, side, bound))
+    return out if {x[2] for x in out} == {"below", "above"} else []
+
+
 def stores_with_range(b, names):
     """[(store term, (lo, hi) of the loop variable)] for every element store, rendered with role names."""
     out = []
@@ -87,6 +153,19 @@ def stores_with_range(b, names):
                 r = ranges.get(iv, {})
                 lo = re.sub(r"#\d+", "", r.get("lo", "?"))
                 hi = re.sub(r"#\d+", "", r.get("hi", ("?", 0))[0])
+                variants = _split_on_loop_var(b, s, iv)
+                if variants:
+                    # the stored value is chosen by a comparison of the loop variable (`if i < bpp { .. } else { .. }`):
+                    # one update per sub-range, as if the loop had been written as two loops
+                    for (l, d, side, bound) in variants:
+                        saved = b.defs[l]
+                        b.defs[l] = [d]
+                        try:
+                            t = wide("%s = %s" % (b.pname(s["lhs"], 2), b.rvname(s["rv"], 10)))
+                        finally:
+                            b.defs[l] = saved
+                        out.append((t, (lo, bound) if side == "below" else (bound, hi)))
+                    continue
                 out.append((wide("%s = %s" % (b.pname(s["lhs"], 2), b.rvname(s["rv"], 10))), (lo, hi)))
     finally:
         b.names = old
